@@ -1385,7 +1385,7 @@ Proof.
       set (s3 := mkS (dk s2) ((RegUpd true (to_flip t s2), false) :: tr s2) None (cs s2)).
       assert (H3 : desc P7 (dk s3)) by (cbn [dk s3 s2]; apply desc_tlog; exact Hp).
       destruct (prb_ok s3 eq_refl H3) as [A [C B]].
-      apply P6_restores; [exact A|rewrite C; reflexivity|exact B].
+      apply P6_restores; [exact A|exact C|exact B].
   - inversion Hc; subst s'. destruct Hp as [Hf [Hu|Hl]]; [|rewrite Hl in Hleak; discriminate].
     apply undoable_restores; assumption.
   - inversion Hc.
@@ -1422,7 +1422,7 @@ Proof.
       set (s3 := mkS (dk s2) ((RegUpd true (to_flip t s2), false) :: tr s2) None (cs s2)).
       assert (H3 : desc P7 (dk s3)) by (cbn [dk s3 s2]; apply desc_tlog; exact Hp).
       destruct (prb_ok s3 eq_refl H3) as [A [C B]].
-      apply P6r; [exact A|rewrite C; reflexivity|exact B].
+      apply P6r; [exact A|exact C|exact B].
   - inversion Hc; subst s'. destruct Hp as [Hf [Hu|Hl]]; [|rewrite Hl in Hleak; discriminate].
     apply undoable_restores_strict; assumption.
   - inversion Hc.
